@@ -163,6 +163,7 @@ def explore_config(case):
     sel = alpha.reduced(elems, 24 if not is_dp else 10)
     numapi.check_group(res, B, [e["p"] for e in sel], [], case, "config", ("product", "inverse", "to_Matrix"))
     numapi.check_forms(res, B, [e["p"] for e in sel], [], case, "config", ("product", "inverse", "to_Matrix"))
+    numapi.check_composed(res, B, [e["p"] for e in sel][:14], [], case, "config", firsts=["inverse", "square"], seconds=["to_Matrix", "inverse", "param_g"])
     # ---- words: BFS over {X*g, g*X, X^-1} ---------------------------------------------------------
     gens = _word_generators(elems, M, I, 6 if not is_dp else 4)
     words_bfs(res, name, B, L, gens, e_id, depth, case)
